@@ -60,7 +60,8 @@ mod sealed {
     #[cfg(all(feature = "memmap", not(target_family = "wasm")))]
     unsafe fn recover_freelist(&self, base: *mut u8, cap: u32) {
       let mut current: &AtomicU64 = &self.sentinel;
-      loop {
+      // a well-formed list has at most one segment per 8 bytes; never follow a corrupted one for ever
+      for _ in 0..=cap / SEGMENT_NODE_SIZE as u32 {
         let (current_size, next_offset) = decode_segment_node(current.load(Ordering::Acquire));
         if next_offset == SENTINEL_SEGMENT_NODE_OFFSET
           || next_offset % SEGMENT_NODE_SIZE as u32 != 0
